@@ -5,7 +5,7 @@
    and deleted structure, for all token lists and all opcode lists.  [partial] at document level:
    the re-parse of the stream by the HTML parser is covered by the observer. *)
 From Coq Require Import List NArith Arith Bool String Permutation.
-From WMD Require Import Gen.Tables Lib.Str Lib.PyChars Lib.Escape Lib.Difflib Model.RenderTokens Model.RenderMerge
+From WMD Require Import Gen.Tables Lib.Str Lib.PyChars Lib.Escape Lib.Difflib Model.RenderTokens Model.RenderMerge Model.RenderLabelled
      Proofs.DifflibProofs Proofs.MergeProofs Proofs.TokenProofs Proofs.AssembleProofs Proofs.RenderProofs Proofs.ReconcileProofs Proofs.CombinedProofs.
 Import ListNotations.
 Open Scope N_scope.
